@@ -77,6 +77,21 @@ Theorem C40_ids_explicit_in_mutable :
     nth_error (struct_ids h ms) k = Some i.
 Proof. exact ids_explicit_mutable. Qed.
 
+(* the sequential rule: in a Mutable structure an un-annotated member that follows an
+   un-hashed member gets that member's id + 1 -- the counter is reset by a LOWER explicit
+   id as well, it is not monotonic *)
+Theorem C40_ids_automatic_is_previous_plus_one :
+  forall h ms k m0 m, s_ext h = Mutable ->
+    nth_error ms k = Some m0 -> nth_error ms (S k) = Some m ->
+    m_hashid m0 = false -> m_hashid m = false -> m_id m = None ->
+    exists i, nth_error (struct_ids h ms) k = Some i /\ nth_error (struct_ids h ms) (S k) = Some (i + 1).
+Proof. exact ids_auto_previous_plus_one. Qed.
+
+Theorem C40_ids_reset_by_lower_explicit_id :
+  struct_ids clash_h_mut [mk_id "a" (Some 10); mk_id "b" None; mk_id "c" (Some 5); mk_id "d" None; mk_id "e" None]
+  = [10; 11; 5; 6; 7].
+Proof. exact ids_reset_example. Qed.
+
 (* deviation from the documented attribute: outside Mutable an explicit id is ignored *)
 Theorem C40_ids_explicit_ignored_outside_mutable :
   forall h ms k m, s_ext h <> Mutable -> nth_error ms k = Some m -> m_hashid m = false ->
@@ -213,6 +228,8 @@ Print Assumptions C40_ids_sequential.
 Print Assumptions C40_ids_hashed.
 Print Assumptions C40_hash_id_is_masked_md5.
 Print Assumptions C40_ids_explicit_in_mutable.
+Print Assumptions C40_ids_automatic_is_previous_plus_one.
+Print Assumptions C40_ids_reset_by_lower_explicit_id.
 Print Assumptions C40_ids_explicit_ignored_outside_mutable.
 Print Assumptions C40_ids_distinct.
 Print Assumptions C40_ids_distinct_decided.
